@@ -115,6 +115,16 @@ func ParseCheckpoint(chkpt []byte, origin string, logSigV note.Verifier, otherSi
 	Assume(UFBool("hasNewline", chkpt)) // a signed note has at least two lines
 	Assume(SigLines(chkpt) >= 1)
 	Assume(SigLines(chkpt) <= 100)
+	if hostileOn {
+		// hostile-size harness: the sizes are dictated by the harness
+		if Eq(chkpt, hostileLatest) {
+			Assume(CpSize(chkpt) == hostileFrom)
+		} else {
+			Assume(CpSize(chkpt) == hostileTo)
+		}
+	}
+	Assume(CpSize(chkpt) == TextSize(NoteText(chkpt)))
+	Assume(Eq(CpHash(chkpt), TextHash(NoteText(chkpt))))
 	cp := &log.Checkpoint{Origin: origin, Size: CpSize(chkpt), Hash: CpHash(chkpt)}
 	n := &note.Note{Text: string(NoteText(chkpt))}
 	n.Sigs = append(n.Sigs, note.Signature{Name: logSigV.Name(), Hash: logSigV.KeyHash(), Base64: UFStr("sigB64", chkpt, k)})
@@ -188,3 +198,31 @@ func (v *VList) Verifier(name string, hash uint32) (note.Verifier, error) {
 
 //wsym:replace golang.org/x/mod/sumdb/note.VerifierList
 func VerifierList(list ...note.Verifier) note.Verifiers { return &VList{L: list} }
+
+// NoteOpen is the contract of x/mod note.Open for callers that only use the text:
+// it succeeds iff the note is well formed and carries a verified signature by a known key.
+//
+//wsym:replace golang.org/x/mod/sumdb/note.Open
+func NoteOpen(msg []byte, known note.Verifiers) (*note.Note, error) {
+	Log(Ev{K: "note.Open", B: [][]byte{msg}})
+	if !UFBool("openOK", msg) {
+		return nil, errOpen
+	}
+	n := &note.Note{Text: string(NoteText(msg))}
+	noteRaw[n] = msg
+	return n, nil
+}
+
+// HostileCheckpointSizes fixes the sizes that log-signed bytes carry in a hostile-size harness:
+// every checkpoint other than the witness's latest has size `to`; the latest has size `from`.
+var hostileTo, hostileFrom uint64
+var hostileLatest []byte
+var hostileOn bool
+
+func HostileCheckpointSizes(to, from uint64, latest []byte) {
+	hostileTo, hostileFrom, hostileLatest, hostileOn = to, from, latest, true
+}
+
+// TextSize / TextHash: the size and root hash lines are functions of the signed text.
+func TextSize(text []byte) uint64 { return UFU64("textSize", text) }
+func TextHash(text []byte) []byte { return UFBytes("textHash", text) }
